@@ -23,7 +23,7 @@ func discoverGuards(p *Program, name string, mode string, track []string) error 
 		}
 	}
 	f := p.progFor(fn.Pkg.Pkg.Path()).facts(fn, m)
-	fmt.Printf("func %s reject=%s params=%s\n", name, m, paramList(fn))
+	fmt.Printf("func %s reject=%s params=%s\n", fullFuncName(fn), m, paramList(fn))
 	gs := f.Guards()
 	sort.SliceStable(gs, func(i, j int) bool { return gs[i].Pos < gs[j].Pos })
 	for _, g := range gs {
@@ -36,7 +36,10 @@ func discoverGuards(p *Program, name string, mode string, track []string) error 
 	if len(track) > 0 {
 		for _, e := range f.Events() {
 			for _, t := range track {
-				if t != "" && strings.Contains(e.Head(), t) {
+				if t == "*" && e.Pure {
+					continue
+				}
+				if t != "" && (t == "*" || strings.Contains(e.Head(), t)) {
 					fmt.Printf("  effect %s    # %s\n", effectKey(f, e), p.pos(e.Pos))
 					break
 				}
@@ -89,4 +92,30 @@ func discoverEvents(p *Program, name string, filters []string) error {
 		fmt.Printf("  effect %s    # %s\n", effectKey(f, e), p.pos(e.Pos))
 	}
 	return nil
+}
+
+// fullFuncName is the resolvable name of a function: pkg.Func, pkg.(*T).M, with $n for closures.
+func fullFuncName(fn *ssa.Function) string {
+	if fn.Parent() != nil {
+		par := fn.Parent()
+		for i, a := range par.AnonFuncs {
+			if a == fn {
+				return fmt.Sprintf("%s$%d", fullFuncName(par), i+1)
+			}
+		}
+	}
+	s := fn.String()
+	// (*pkg.T).M -> pkg.(*T).M ; (pkg.T).M -> pkg.(T).M
+	if strings.HasPrefix(s, "(") {
+		i := strings.Index(s, ").")
+		recv := s[1:i]
+		star := ""
+		if strings.HasPrefix(recv, "*") {
+			star = "*"
+			recv = recv[1:]
+		}
+		j := strings.LastIndex(recv, ".")
+		return recv[:j] + ".(" + star + recv[j+1:] + ")." + s[i+2:]
+	}
+	return s
 }
